@@ -191,7 +191,8 @@ Theorem cache_transparent_failed_writes_and_handles :
                    (mkX ([], 0%Z) [] [] 0%Z) xs.
 Proof. exact (fun K Kinj conc xs => cache_transparent_x_src_proved K Kinj conc xs (mkX ([], 0%Z) [] [] 0%Z) (CI_init K)). Qed.
 
-(* Both repairs are necessary.  One cache per handle (the code before the repair of C07-HANDLES): the first handle caches "not found", the second writes, the
+(* Both repairs are necessary.  One cache per handle (the code before the repair of C07-HANDLES - and what two
+   overlapping first calls get from a per-app map whose mutex is released between lookup and store): the first handle caches "not found", the second writes, the
    first still answers "not found" *)
 Example second_handle_own_cache_refuted :
   exists xs, list_eqb sout_eqb (xrun spec_step false true true true true (mkX ([], 0%Z) [] [] 0%Z) xs)
@@ -201,13 +202,6 @@ Proof.
           (false, FNone, OGet [97%N; 97%N] [1%N])].
   vm_compute. reflexivity.
 Qed.
-
-(* the per-app map without the mutex held across lookup and store: handles taken one after the other share the
-   cache, two overlapping first calls do not (provider_memo computes that from the two flags; the witness above is
-   then the history of the two racing handles) *)
-Example unlocked_provider_map_shares_only_sequentially :
-  (true && (false || negb false) = true /\ true && (false || negb true) = false)%bool.
-Proof. split; reflexivity. Qed.
 
 (* a failed write leaves the cache as it was (the code before the repair of C07-WRITEERR): a Put that times out after its effect, and a
    batch applied in its first item, leave the old value in the cache *)
